@@ -1,4 +1,5 @@
 mod c16;
+mod c16c;
 mod c17;
 mod spec;
 use vkit::{Check, Level};
